@@ -100,6 +100,11 @@ pub fn reject_candidates(region: &str, join: bool) -> Vec<Frame> {
         let big = if region == "EU868" { 60 } else { 230 };
         v.push(d(Fcnt::Rel(1), Tamper::None, big, vec![0x06]));
         v.push(d(Fcnt::Rel(1), Tamper::BadMic, big, vec![]));
+        if region == "EU868" {
+            // exactly at the size limit of the window (MACPayload 7 + 1 + 51 = 59) and one byte above it
+            v.push(d(Fcnt::Rel(1), Tamper::BadMic, 51, vec![]));
+            v.push(d(Fcnt::Rel(1), Tamper::BadMic, 52, vec![]));
+        }
     }
     v
 }
@@ -662,7 +667,8 @@ pub fn run(tier: Tier, replay: Option<&str>) {
     }
     let ctx = Ctx::new("C07", tier);
     let th = tier.thorough();
-    let depth = if th { 4 } else { 3 };
+    // (quick: one region at the thorough depth)
+    let depth = 4;
     let mut runs = vec![];
     let regions: &[&str] = if th { &["EU868", "US915", "AS923_1", "AU915"] } else { &["EU868", "US915"] };
     for r in regions {
